@@ -71,9 +71,10 @@ def main() -> int:
             continue
         os.pwrite(curfd, b"%-12d" % idx, 0)
         before = {k: v["count"] for k, v in col.violations.items()}
-        faulthandler.dump_traceback_later(prop.hard_timeout, exit=True, file=errlog)
+        soft_t, hard_t = prop.timeouts(case)
+        faulthandler.dump_traceback_later(hard_t, exit=True, file=errlog)
         try:
-            with soft_alarm(prop.soft_timeout):
+            with soft_alarm(soft_t):
                 prop.check(case, col)
         except CaseTimeout:
             prop.on_timeout(case, col, False)
